@@ -274,6 +274,8 @@ def default_models():
     def _array_equal(I, a, b, **kw):
         if a is b:
             return True
+        if a is None or b is None:
+            return False        # np.array_equal(x, None): shapes differ
         if isinstance(a, SArr) and isinstance(b, SArr) and a.fn is b.fn and \
                 (a.length is b.length or (not is_sym(a.length) and not is_sym(b.length) and a.length == b.length) or
                  (is_sym(a.length) and is_sym(b.length) and z3.eq(to_z3(a.length), to_z3(b.length)))):
@@ -285,6 +287,19 @@ def default_models():
             for k in range(a.length):
                 r = I.and_(r, I.compare('==', a.at(k), b.at(k)))
             return r
+        if isinstance(a, SArr) and isinstance(b, SArr):
+            # two arrays of symbolic length: the answer is a Boolean that implies equal lengths and equal elements (stated for one
+            # generic index, an instance of the universal fact); its negation implies nothing that is used
+            I.hooks['array_equal_count'] = I.hooks.get('array_equal_count', 0) + 1
+            eq = I.ctx.fresh(f'arrays_equal_{I.hooks["array_equal_count"]}', z3.BoolSort())
+            k = I.ctx.fresh('k', z3.IntSort())
+            la, lb = to_z3(a.length), to_z3(b.length)
+            try:
+                elem = to_z3(a.at(k)) == to_z3(b.at(k))
+            except Exception:   # noqa
+                elem = z3.BoolVal(True)
+            I.ctx.axiom(z3.Implies(eq, z3.And(la == lb, z3.Implies(z3.And(k >= 0, k < la), elem))))
+            return eq
         raise Unsupported('np.array_equal of two different symbolic-length arrays')
     reg('numpy.array_equal', _array_equal)
 
@@ -492,7 +507,17 @@ def default_models():
     reg('numpy.empty', lambda I, n, **kw: _full(I, n, Fraction(0)))
     reg('numpy.zeros_like', lambda I, a, dtype=None, **kw: SArr(I.len_(a), lambda k: Fraction(0), dtype=(getattr(a, 'dtype', None) if dtype is None else None)))
     reg('numpy.ones_like', lambda I, a, **kw: SArr(I.len_(a), lambda k: Fraction(1)))
-    reg('numpy.full_like', lambda I, a, v, **kw: SArr(I.len_(a), lambda k: v))
+    def _full_like(I, a, v, dtype=None, **kw):
+        # the result has the element type of `a` (unless dtype= says otherwise): the fill value of an integer array is truncated
+        if dtype is None and getattr(a, 'dtype', None) == 'int':
+            if isinstance(v, Fraction):
+                v = int(v)                      # truncates towards zero, as numpy does
+            elif is_sym(v) and not to_z3(v).is_int():
+                vr = to_real(v)
+                v = z3.If(vr >= 0, z3.ToInt(vr), -z3.ToInt(-vr))
+            return SArr(I.len_(a), lambda k: v, dtype='int')
+        return SArr(I.len_(a), lambda k: v)
+    reg('numpy.full_like', _full_like)
     reg('numpy.empty_like', lambda I, a, dtype=None, **kw: SArr(I.len_(a), lambda k: Fraction(0), dtype=(getattr(a, 'dtype', None) if dtype is None else None)))
     reg('numpy.min', lambda I, a, **kw: I.builtins['min'].fn(a))
     reg('numpy.max', lambda I, a, **kw: I.builtins['max'].fn(a))
